@@ -1,11 +1,264 @@
-/- Driver for C04 (stub — not built yet) -/
+/-
+Driver for C04.  A transcript case holds the script, the canonical traces of the real executions of
+the SAME (model, seed) — `a1`, `a2` (back to back in one process), `b` (after an unrelated simulation),
+`c` (in a child process) — and the header parameter `tq` (measured `TimerQueue::next` variant).
+
+1. the real traces are compared with each other, line by line, result included: a difference is a
+   concrete failing input (`kind=reject clause=nondeterminism pair=… op=<first differing line>`);
+   the sets of unfinished tasks dropped at tear-down must agree as well; if only their ORDER differs
+   the verdict is `kind=reject clause=teardown-order`, if only the clock seen while the network was
+   built differs (`bt` lines, header `clock=1`) it is `kind=reject clause=build-time-clock` (both are
+   reported only when everything else, the model replay included, agrees);
+2. the random stream is read off trace `a1` (tokio seed placeholders at the `start` callbacks, `random()`
+   values, jitter = arrival - send - latency, `select!` start index = first polled branch) and the script
+   is replayed through `Repro.run` (the definitions the theorems of Props/C04.lean are about) under a
+   non-canonical ambient; trace, final time, event count, left-over events, unfinished tasks must agree
+   and the stream must be used up exactly (`kind=diverge`).
+-/
+import Desverif.Model.Repro
 import Driver.Common
+import Std.Data.HashMap
 namespace Driver.C04
-open Driver
+open Repro Driver
+
+def parseStep (t : String) : Option Step :=
+  match t.splitOn ":" with
+  | ["draw"] => some .draw
+  | ["draw32"] => some .draw32
+  | ["send", dst, k] => k.toNat?.map (Step.send dst)
+  | ["sched", d, k] => do let d ← d.toNat?; let k ← k.toNat?; pure (.sched d k)
+  | ["spawn", t] => some (.spawn t)
+  | ["sleep", d] => d.toNat?.map Step.sleep
+  | ["sel", ds] =>
+    let v := (ds.splitOn ",").map String.toNat?
+    if v.all Option.isSome && (v.length == 2 || v.length == 3) then some (.sel (v.map (·.getD 0))) else none
+  | _ => none
+
+structure Script where
+  created : List (String × Nat) := []
+  links : List Link := []
+  rules : List (String × On × List Step) := []
+  tasks : List (String × List Step) := []
+
+def parseScript (body : List String) : Script := Id.run do
+  let mut sc : Script := {}
+  for line in body do
+    match words line with
+    | "mod" :: path :: rest =>
+      let comps := path.splitOn "."
+      if comps.any (· == "") then continue
+      if sc.created.any (·.1 == path) then continue
+      match parentPath path with
+      | some p => if !sc.created.any (·.1 == p) then continue
+      | none => pure ()
+      sc := { sc with created := sc.created ++ [(path, (kvNat rest "ttl").getD 0)] }
+    | _ => pure ()
+  let has := fun (sc : Script) (p : String) => sc.created.any (·.1 == p)
+  for line in body do
+    match words line with
+    | "link" :: src :: dst :: rest =>
+      if !has sc src || !has sc dst || src == dst then continue
+      if sc.links.any (fun l => l.src == src && l.dst == dst) then continue
+      if rest.contains "direct" then
+        sc := { sc with links := sc.links ++ [⟨src, dst, none⟩] }
+      else
+        match kvNat rest "lat", kvNat rest "jit" with
+        | some l, some j => sc := { sc with links := sc.links ++ [⟨src, dst, some (l, j)⟩] }
+        | _, _ => pure ()
+    | "rule" :: path :: on :: steps =>
+      let on? : Option On :=
+        if on == "start" then some .start
+        else if on == "end" then some .end_
+        else match on.splitOn ":" with
+          | ["msg", k] => k.toNat?.map On.msg
+          | _ => none
+      match on? with
+      | some o => sc := { sc with rules := sc.rules ++ [(path, o, steps.filterMap parseStep)] }
+      | none => pure ()
+    | "task" :: tag :: steps =>
+      if !sc.tasks.any (·.1 == tag) then
+        sc := { sc with tasks := sc.tasks ++ [(tag, steps.filterMap parseStep)] }
+    | _ => pure ()
+  return sc
+
+structure RunObs where
+  obs : Array Obs := #[]
+  raw : Array String := #[]        -- the same lines as text (with the result line last)
+  drops : Array String := #[]
+  built : String := ""
+  res : String := ""
+
+def parseObs (toks : List String) : Option Obs :=
+  match toks with
+  | t :: path :: what :: who :: peer :: args =>
+    match t.toNat? with
+    | some t => some ⟨t, path, what, who, peer, args.map (·.toNat?.getD 0)⟩
+    | none => none
+  | _ => none
+
+def fmtObs (o : Obs) : String :=
+  s!"{o.time} {o.path} {o.what} {o.who} {o.peer}" ++ String.join (o.args.map (fun a => s!" {a}"))
+
+def us (s : String) : String := s.replace " " "_"
+
+/-- index of the first difference of two arrays (or the shorter length) -/
+def firstDiff (a b : Array String) : Option Nat := Id.run do
+  let n := min a.size b.size
+  for i in [0:n] do
+    if a[i]! != b[i]! then return some i
+  if a.size != b.size then return some n
+  return none
+
+def sortStrings (a : Array String) : Array String := a.qsort (· < ·)
+
+/-- the random stream that run `r` consumed, in consumption order -/
+def streamOf (sc : Script) (r : RunObs) : Except String (List Nat) := do
+  let mut recv : Std.HashMap Nat Nat := {}
+  for o in r.obs do
+    if o.what == "msg" then
+      match o.args with
+      | [_, _, serial] => recv := recv.insert serial o.time
+      | _ => pure ()
+  let mut out : Array Nat := #[]
+  let mut ending := false
+  for o in r.obs do
+    if o.what == "end" then ending := true
+    if o.what == "start" then out := out.push 0
+    else if o.what == "draw" || o.what == "draw32" then out := out.push (o.args.headD 0)
+    else if o.what == "sp" then out := out.push (o.args.headD 0)
+    else if o.what == "send" then
+      match sc.links.find? (fun l => l.src == o.path && l.dst == o.peer) with
+      | some ⟨_, _, some (lat, jit)⟩ =>
+        if jit != 0 then
+          match o.args with
+          | [_, _, serial] =>
+            match recv[serial]? with
+            | some t =>
+              if t < o.time + lat then throw s!"arrival-before-latency serial={serial}"
+              let j := t - o.time - lat
+              if j > jit then throw s!"jitter-out-of-range serial={serial} jitter={j} bound={jit}"
+              out := out.push j
+            | none =>
+              -- `at_sim_end` does not flush the emission buffer: the draw is made, its value is never used
+              if ending then out := out.push 0 else throw s!"undelivered serial={serial}"
+          | _ => throw "bad-send-line"
+      | _ => pure ()
+  return out.toList
+
+def hasDecisiveSel (steps : List Step) : Bool :=
+  steps.any fun
+    | .sel ds =>
+      match ds.min? with
+      | some m => (ds.filter (· == m)).length ≥ 2
+      | none => false
+    | _ => false
 
 def main (stdin : IO.FS.Stream) : IO Unit := do
   let cases ← readCases stdin
   for c in cases do
-    IO.println s!"fail {(words c.header)[1]?.getD "?"} op=0 kind=unimplemented"
+    let htoks := words c.header
+    let id := htoks[1]?.getD "?"
+    let wantChild := (kv htoks "child") == some "1"
+    let skipEmpty := (kv htoks "tq") == some "skip"
+    let seed := (kvNat htoks "seed").getD 1
+    let sc := parseScript c.body
+    -- the runs
+    let mut runs : Std.HashMap String RunObs := {}
+    for line in c.body do
+      match words line with
+      | "o" :: r :: rest =>
+        let ro := runs.getD r {}
+        match parseObs rest with
+        | some o => runs := runs.insert r { ro with obs := ro.obs.push o, raw := ro.raw.push (" ".intercalate rest) }
+        | none => runs := runs.insert r { ro with raw := ro.raw.push ("unparsable " ++ " ".intercalate rest) }
+      | "d" :: r :: rest =>
+        let ro := runs.getD r {}
+        runs := runs.insert r { ro with drops := ro.drops.push (" ".intercalate rest) }
+      | "bt" :: r :: rest =>
+        let ro := runs.getD r {}
+        runs := runs.insert r { ro with built := " ".intercalate rest }
+      | "res" :: r :: rest =>
+        let ro := runs.getD r {}
+        runs := runs.insert r { ro with res := " ".intercalate rest }
+      | _ => pure ()
+    let names := if wantChild then ["a1", "a2", "b", "c"] else ["a1", "a2", "b"]
+    match names.find? (fun n => (runs[n]?).isNone || (runs.getD n {}).res == "") with
+    | some n =>
+      IO.println s!"fail {id} op=0 kind=harness detail=run-{n}-missing"
+      continue
+    | none => pure ()
+    let a1 := runs.getD "a1" {}
+    if (runs.getD "c" {}).res.startsWith "err=child-failed" then
+      IO.println s!"fail {id} op=0 kind=harness detail=child-process-failed"
+      continue
+    -- 1. real executions against each other
+    let mut verdict : Option String := none
+    let mut tearOrder : Option String := none
+    for n in names.drop 1 do
+      if verdict.isSome then break
+      let r := runs.getD n {}
+      let x := a1.raw.push ("res " ++ a1.res)
+      let y := r.raw.push ("res " ++ r.res)
+      match firstDiff x y with
+      | some i =>
+        verdict := some s!"fail {id} op={i} kind=reject clause=nondeterminism pair=a1/{n} seed={seed} first={us (x[i]?.getD "<end>")} other={us (y[i]?.getD "<end>")}"
+      | none =>
+        if sortStrings a1.drops != sortStrings r.drops then
+          verdict := some s!"fail {id} op={a1.raw.size} kind=reject clause=nondeterminism pair=a1/{n} seed={seed} what=unfinished-task-sets-differ"
+        else if a1.drops != r.drops && tearOrder.isNone then
+          let i := (firstDiff a1.drops r.drops).getD 0
+          tearOrder := some s!"fail {id} op={a1.raw.size + i} kind=reject clause=teardown-order pair=a1/{n} seed={seed} first={us (a1.drops[i]?.getD "<end>")} other={us (r.drops[i]?.getD "<end>")}"
+        else if a1.built != r.built && tearOrder.isNone then
+          tearOrder := some s!"fail {id} op=0 kind=reject clause=build-time-clock pair=a1/{n} seed={seed} first={a1.built} other={r.built}"
+    if let some v := verdict then
+      IO.println v
+      continue
+    -- 2. the model on the recorded stream
+    match streamOf sc a1 with
+    | .error e =>
+      IO.println s!"fail {id} op=0 kind=diverge detail=stream:{us e}"
+      continue
+    | .ok stream =>
+      let net : Net := { mods := treeOrder sc.created, links := sc.links, rules := sc.rules, tasks := sc.tasks, skipEmpty := skipEmpty }
+      -- a non-canonical ambient (the result does not depend on it: C04.trace_ambient_independent)
+      let base := seed % 60000
+      let amb : Ambient := ⟨fun k => 255 + base + k, fun k => 7 * base + k⟩
+      let res := run net amb stream 200000
+      let mtrace := (res.trace.map fmtObs).toArray
+      match firstDiff mtrace a1.raw with
+      | some i =>
+        IO.println s!"fail {id} op={i} kind=diverge seed={seed} model={us (mtrace[i]?.getD "<end>")} impl={us (a1.raw[i]?.getD "<end>")}"
+        continue
+      | none => pure ()
+      let mres := match res.fault with
+        | some f => s!"err=model-fault:{f}"
+        | none => s!"ok time={res.time} events={res.events} left={res.left}"
+      if mres != a1.res then
+        IO.println s!"fail {id} op={a1.raw.size} kind=diverge seed={seed} model={us mres} impl={us a1.res}"
+        continue
+      if !res.rest.isEmpty then
+        IO.println s!"fail {id} op={a1.raw.size} kind=diverge seed={seed} detail=stream-not-used-up:{res.rest.length}"
+        continue
+      let munf := sortStrings ((res.unfinished.map (fun p => s!"{p.1} {p.2}")).toArray)
+      if munf != sortStrings a1.drops then
+        IO.println s!"fail {id} op={a1.raw.size} kind=diverge seed={seed} detail=unfinished-tasks model={us (toString munf)} impl={us (toString (sortStrings a1.drops))}"
+        continue
+      if let some v := tearOrder then
+        IO.println v
+        continue
+      -- evidence
+      let cnt := fun (w : String) => (a1.obs.filter (·.what == w)).size
+      let jit := (a1.obs.filter (fun o => o.what == "send" &&
+        (match sc.links.find? (fun l => l.src == o.path && l.dst == o.peer) with
+         | some ⟨_, _, some (_, j)⟩ => j != 0
+         | _ => false))).size
+      let draws := cnt "draw" + cnt "draw32"
+      let remote := (a1.obs.filter (fun o => o.what == "msg" && o.peer != "-")).size
+      let decisive := a1.obs.any (fun o => o.what == "sel" &&
+        (match sc.tasks.find? (·.1 == o.who) with
+         | some t => hasDecisiveSel t.2
+         | none => false))
+      let nt := sc.created.length ≥ 2 && jit ≥ 1 && draws ≥ 1 && remote ≥ 1 && decisive && wantChild
+      IO.println s!"ok {id} nt={if nt then 1 else 0} mods={sc.created.length} obs={a1.obs.size} draws={draws} jitter={jit} selpolls={cnt "sp"} sels={cnt "sel"} msgs={cnt "msg"} wakes={cnt "woke"} unfinished={a1.drops.size} child={if wantChild then 1 else 0} stream={stream.length}"
 
 end Driver.C04
